@@ -399,8 +399,12 @@ class PEmitter:
             return self.block(e, env, k, want)
         if kind == "field":
             return self.field(e, env, k)
+        if kind == "index":
+            return self.index(e, env, k)
         if kind == "matches":
             return self.matches(e, env, k)
+        if kind == "macro" and e[1] == "unreachable":
+            return "Panic PAssert"
         if kind == "return":
             return self.ret(e[1], env)
         raise Untranslatable("expression kind %s" % kind)
@@ -515,10 +519,10 @@ class PEmitter:
             t = ta if self.is_flags(ta) else self.unify(ta, tb, "bit operation")
             fn = {"&": "Z.land", "|": "Z.lor", "^": "Z.lxor"}[op]
             return k("(%s %s %s)" % (fn, a, b), t, env)
-        if op in ("+", "-", "*"):
+        if op in ("+", "-", "*", "/", "%"):
             t = self.unify(ta, tb, "arithmetic")
             v = self.fresh("t")
-            fn = {"+": "add_c", "-": "sub_c", "*": "mul_c"}[op]
+            fn = {"+": "add_c", "-": "sub_c", "*": "mul_c", "/": "div_c", "%": "rem_c"}[op]
             return "let* %s := %s %s %s %s in\n  %s" % (v, fn, self.cty(t), a, b, k(v, t, env))
         raise Untranslatable("operator %s" % op)
 
@@ -534,6 +538,19 @@ class PEmitter:
                 raise Untranslatable("tuple projection")
             raise Untranslatable("field access .%s on %r" % (e[2], t))
         return self.expr(e[1], env, after)
+
+    def index(self, e, env, k):
+        def on_base(a, t, env):
+            t = resolve(t)
+            def on_idx(i, ti, env):
+                v = self.fresh("e")
+                if isinstance(t, tuple) and t[0] == "mvarr" and t[1] == 4:
+                    return "let* %s := tup4_get %s %s in\n  %s" % (v, a, i, k(v, "MotionVector", env))
+                if isinstance(t, tuple) and t[0] == "list":
+                    return "let* %s := get %s %s in\n  %s" % (v, a, i, k(v, t[1], env))
+                raise Untranslatable("indexing into %r" % (t,))
+            return self.expr(e[2], env, on_idx, "usize")
+        return self.expr(e[1], env, on_base)
 
     def norm_field(self, t):
         t = norm(t)
@@ -631,6 +648,8 @@ class PEmitter:
             return self.expr(args[0], env, lambda a, t, env: k("(Some %s)" % a, ("opt", t), env), w[1] if isinstance(w, tuple) and w[0] == "opt" else None)
         if f[0] == "var" and f[1] in ("Ok", "Err"):
             raise Untranslatable("Result value outside return position")
+        if f[0] == "path" and f[1] == ["MotionVector", "zero"] and not args:
+            return k("mv_zero", "MotionVector", env)
         if f[0] == "path" and f[1] == ["Vec", "new"] and not args:
             return k("[]", ("vec", EVar()), env)
         if f[0] == "path" and f[1] == ["IntraDc", "from_u8"] and len(args) == 1:
@@ -757,6 +776,28 @@ class PEmitter:
         recv, name, args = e[1], e[2], e[3]
         if recv[0] == "var" and recv[1] == "reader":
             raise Untranslatable("reader operation without `?`")
+        # list.get(i).map(|x| BODY).unwrap_or(d) with a BODY that can panic (an index): a match on nth_error
+        if name == "unwrap_or" and len(args) == 1 and recv[0] == "mcall" and recv[2] == "map" and recv[3][0][0] == "closure" \
+                and recv[1][0] == "mcall" and recv[1][2] == "get" and len(recv[1][3]) == 1:
+            clo = recv[3][0]
+            pv = clo[1][0][1]
+            def on_list(a, t, env):
+                t = resolve(t)
+                if not (isinstance(t, tuple) and t[0] == "list"):
+                    raise Untranslatable(".get on %r" % (t,))
+                def on_i(i, ti, env):
+                    def on_d(d, td, env):
+                        x = self.fresh(pv)
+                        kname, vars_, params, envk = self.join([], env, None)
+                        vp = self.fresh("x")
+                        body = k(vp, td, envk)
+                        callf = self.lift(kname, [(vp, td)], [], [], env, body)
+                        env2 = dict(env); env2[pv] = (x, t[1])
+                        s_code = self.expr(clo[2], env2, lambda b, tb, env3: callf([b], env3))
+                        return "match nth_error %s (Z.to_nat %s) with\n  | Some %s => (%s)\n  | None => (%s)\n  end" % (a, i, x, s_code, callf([d], env))
+                    return self.expr(args[0], env, on_d)
+                return self.expr(recv[1][3][0], env, on_i, "usize")
+            return self.expr(recv[1][1], env, on_list)
         # prev.map(|p| p.options).unwrap_or_else(PictureOption::empty)  /  .map(|p| ..).unwrap_or(d)
         if name in ("unwrap_or_else", "unwrap_or") and len(args) == 1 and recv[0] == "mcall" and recv[2] == "map" and recv[3][0][0] == "closure":
             clo = recv[3][0]
@@ -810,6 +851,14 @@ class PEmitter:
             t = resolve(t)
             if isinstance(t, str) and (t, name) in ENUM_METHODS and not args:
                 return k("(%s %s)" % (ENUM_METHODS[(t, name)], a), "bool", env)
+            if name == "len" and not args and isinstance(t, tuple) and t[0] == "list":
+                return k("(zlength %s)" % a, "usize", env)
+            if name == "saturating_sub" and len(args) == 1 and is_int(t):
+                lo, hi = INTS[t]
+                return self.expr(args[0], env, lambda b, tb, env: k("(clamp %s %s (%s - %s))" % (zlit(lo), zlit(hi), a, b), t, env), t)
+            if t == "MotionVector" and name == "median_of" and len(args) == 2:
+                # MotionVector::median_of is the component-wise HalfPel::median_of (translated and bridged as a kernel)
+                return self.expr(args[0], env, lambda b, tb, env: self.expr(args[1], env, lambda c, tc, env: k("(mv_median %s %s %s)" % (a, b, c), "MotionVector", env)))
             if name == "contains" and len(args) == 1:
                 c = args[0]
                 while c[0] in ("ref", "paren"):
@@ -1266,7 +1315,7 @@ class PEmitter:
             if not (is_int(t) or isinstance(t, TVar)):
                 raise Untranslatable("match on %r" % (t,))
             if any(g is not None for _, g, _ in arms):
-                raise Untranslatable("match guard")
+                return self.match_int_guards(a, t, arms, env, k, want)
             if isinstance(t, TVar) and all(p[0] in ("plit", "pwild", "por", "prange") for p, _, _ in arms):
                 self.unify(t, "i32", "literal patterns")        # Rust's integer fallback
             sv = self.fresh("m")
@@ -1332,6 +1381,40 @@ class PEmitter:
                 chain = "if %s then (%s) else\n  %s" % (c, fix(code), chain)
             return "let %s := %s in\n  %s" % (sv, a, chain)
         return self.expr(scrut, env, on_scrut)
+
+    def match_int_guards(self, a, t, arms, env, k, want):
+        """integer match with guards: the arms in order, each condition = pattern && guard; the arms' values go to a join point"""
+        sv = self.fresh("m")
+        kname, vars_, params, envk = self.join([b for _, _, b in arms], env, None)
+        vp = self.fresh("x")
+        h = {}
+        def call(a2, t2, env2):
+            h["t"] = self.merge(h.get("t"), t2)
+            return "@CALL:%s@%s@%s@" % (kname, a2, "|".join(env2[v][0] for v in vars_))
+        codes = []
+        for p, g, b in arms:
+            c = self.pat_cond(p, sv)
+            if g is not None:
+                hg = {}
+                def capg(a2, t2, env2):
+                    hg["a"] = a2
+                    return ""
+                self.expr(g, env, capg, "bool")
+                c = hg["a"] if c == "true" else "(%s && %s)" % (c, hg["a"])
+            if b[0] == "macro" and b[1] == "unreachable":
+                codes.append((c, "Panic PAssert"))
+            else:
+                codes.append((c, self.expr(b, env, call, want if want is not None else h.get("t"))))
+        if codes[-1][0] != "true":
+            raise Untranslatable("integer match without a catch-all arm")
+        body = k(vp, h.get("t"), envk)
+        env_sv = dict(env); env_sv["$" + sv] = (sv, t)
+        callf = self.lift(kname, [(vp, h.get("t"))], vars_, params, env_sv, body)
+        fix = self.fixer(kname, callf, vars_)
+        chain = "(%s)" % fix(codes[-1][1])
+        for c, code in reversed(codes[:-1]):
+            chain = "if %s then (%s) else\n  %s" % (c, fix(code), chain)
+        return "let %s := %s in\n  %s" % (sv, a, chain)
 
     def enum_pattern(self, p, ty, env):
         """Coq pattern text and the environment extended with the variables it binds"""
@@ -1501,6 +1584,8 @@ class PEmitter:
             return self.match_ret(e, env)
         if e[0] == "block":
             return self.ret_block(e, env)
+        if self.pure:
+            return self.expr(e, env, lambda a, t, env: self.ok(a, t, env), self.rty)
         raise Untranslatable("return of %s" % e[0])
 
     def ok(self, a, t, env):
@@ -1514,9 +1599,12 @@ class PEmitter:
                 pass
         if self.union_none and a == "None":
             return "Ok (None, %s)" % self.union_none          # with_transaction_union: Ok(None) leaves the reader where it was
+        if self.pure:
+            return "Ok %s" % a
         return "Ok (%s, %s)" % (a, env["$reader"][0])
 
     union_none = None
+    pure = False          # a function without a reader (decoder/cpu): the result is `res T`, Panic for Rust panics
 
     def ret_block(self, blk, env):
         if blk[0] != "block":
@@ -1634,6 +1722,33 @@ def coq_of(t, defs):
     raise Untranslatable("no Coq type for %r" % (t,))
 
 
+def translate_pure_fn(src, defs, name, coq_name, known, aliases):
+    """a function of decoder/cpu without a reader: `res T`, Panic where Rust panics"""
+    params, ret, body = find_fn_generic(src.toks, name)
+    em = PEmitter(defs, known, aliases)
+    em.pure = True
+    em.fname = coq_name
+    env, binders = {}, []
+    for pn, pt in params:
+        t = norm(alias_expand(pt, aliases))
+        cn = "a_" + pn
+        env[pn] = (cn, t)
+        binders.append("(%s : %s)" % (cn, coq_param_type(t)))
+    env["$reader"] = ("tt", "reader")
+    em.rty = norm(alias_expand(ret, aliases))
+    code = em.ret_block(body, env)
+    rt_coq = coq_of(em.rty, defs)
+    lifted_texts, lifted_names, code = em.resolve_lifted(code, rt_coq)
+    fixrt = lambda l: l.replace("res (%s * reader)" % rt_coq, "res %s" % rt_coq)
+    text = "".join(fixrt(em.finish(l)) + "\n" for l in lifted_texts)
+    for n in lifted_names:
+        text += "#[global] Hint Unfold %s : pgen.\n" % n
+    if lifted_names:
+        text += "\n"
+    text += "Definition %s %s : res %s :=\n  %s.\n" % (coq_name, " ".join(binders), rt_coq, em.finish(code))
+    return text, (coq_name, None, em.rty)
+
+
 def coq_param_type(t):
     if t == "DecoderOption":
         return "dec_opts"
@@ -1641,6 +1756,8 @@ def coq_param_type(t):
         return "Z"
     if t == "bool":
         return "bool"
+    if isinstance(t, tuple) and t[0] in ("list", "mvarr"):
+        return coq_of(t, None)
     if isinstance(t, tuple) and t[0] == "opt" and t[1] == "Picture":
         return "option picture"
     if t == "Picture":
@@ -1739,6 +1856,33 @@ def gen_parser(repo, status, write):
                HEADER.replace("h263/src/parser/picture.rs", "h263/src/parser/macroblock.rs").replace("picture-header field decoders", "macroblock-layer header decoders")
                      .replace("model.Header.\n", "model.Header model.Syntax.\n").replace("Create HintDb pgen.", "Create HintDb pgenmb."),
                hintdb="pgenmb")
+    gen_pure(repo, status, write)
+
+
+def gen_pure(repo, status, write):
+    fname, rel = "GenPMvPred.v", "h263/src/decoder/cpu/mvd_pred.rs"
+    body = ("(* GENERATED by tools/rs2v.py (rs2v_parser) from %s -- do not edit. *)\n"
+            "From H263V Require Import base.Prelude base.Checked model.Types model.Tables model.Reader model.Header model.Syntax model.Recon.\n"
+            "Create HintDb pgenmv.\n\n" % rel)
+    functions = ["predict_candidate"]
+    try:
+        src = Source(repo, rel)
+        defs = Defs(repo)
+    except Untranslatable as e:
+        for f in functions:
+            status["parser.p_" + f] = "untranslatable: %s" % e
+        write(fname, body)
+        return
+    for f in functions:
+        key = "parser.p_" + f
+        try:
+            text, sig = translate_pure_fn(src, defs, f, "p_" + f, {}, {})
+            body += text.replace(": pgen.", ": pgenmv.") + "\n"
+            status[key] = "ok"
+        except Untranslatable as e:
+            body += "(* p_%s: untranslatable: %s *)\n\n" % (f, str(e).replace("*)", "* )"))
+            status[key] = "untranslatable: %s" % e
+    write(fname, body)
 
 
 def _gen_group(repo, status, write, fname, rel, functions, known, header, statics=False, hintdb="pgen"):
